@@ -1,5 +1,5 @@
 (* C15: a truncated dictionary file is never loaded. *)
-From X Require Import Base Arr Dac Trie Serial SerialFacts Examples.
+From X Require Import LayoutGen LayoutFacts Base Arr Dac Trie Serial SerialFacts Examples.
 Local Open Scope N_scope.
 
 (* every proper prefix of a saved file makes load throw (a short read), for arbitrary structures P
@@ -11,9 +11,15 @@ Proof. exact load_truncated_readfail. Qed.
 Theorem C15_complete : forall v P, trie_fits v P -> load v (save v P) = Ok P.
 Proof. exact load_save. Qed.
 
+(* the member order and types of every visit() in the current headers are the ones Serial.v models
+   (LayoutGen.v is regenerated from the source on every run) *)
+Theorem C15_layout_is_the_modelled_one : layouts_now = layouts_modelled.
+Proof. exact layout_is_the_modelled_one. Qed.
+
 Example C15_nonvacuous :
   load V8 (firstn 100 (ex_bytes V8)) = Exc ReadFail /\ load V8 (firstn 3 (ex_bytes V8)) = Exc ReadFail /\
   (100 < length (ex_bytes V8))%nat.
 Proof. vm_compute. repeat split; try reflexivity. repeat constructor. Qed.
 
 Print Assumptions C15_truncated. Print Assumptions C15_complete.
+Print Assumptions C15_layout_is_the_modelled_one.
